@@ -194,7 +194,8 @@ def ambient(label, a):
     if sess is not None and sess.muted:
         return
     if sess is not None:
-        fnd = table_findings(core, sess.sfp, sess.purged_a, sess.purged_b, rec)
+        # the hook fires inside the harness call, before the model is advanced: what this very operation purges is announced in sess.pending
+        fnd = table_findings(core, sess.sfp, sess.purged_a | sess.pending[0], sess.purged_b | sess.pending[1], rec)
         reported, wit = sess.reported, sess.witness
     else:
         # armi's own construction: only the core-level tables are meaningful (the pool is registered later)
@@ -285,6 +286,7 @@ class Session:
         self.moved_any = False
         self.fresh_given_away = set()
         self.nchecks = 0
+        self.pending = (set(), set())
         for a in self.core.getChildren():
             ij = tuple(int(x) for x in a.spatialLocator.indices[:2])
             self.at[ij] = a
@@ -591,8 +593,14 @@ class Session:
         self.history.append(desc)
         if incoming_from == "fresh" and ki == ko:
             self.fresh_given_away.update(id(self.seq[id(inc)][k]) for k in ki)  # known before the call: the ambient hook classifies with it
+        if ki == ko and not (self.track and self.sfp is not None):
+            leaving = [self.seq[id(inc)][k] if k in ko else b for k, b in enumerate(self.seq[id(outgoing)])]
+            self.pending = ({id(outgoing)}, {id(b) for b in leaving})
         try:
-            self.fh.dischargeSwap(inc, outgoing)
+            try:
+                self.fh.dischargeSwap(inc, outgoing)
+            finally:
+                self.pending = (set(), set())
         except ValueError as e:
             if ki != ko and "stationary" in str(e):
                 desc["outcome"] = "refused"
@@ -654,8 +662,13 @@ class Session:
         desc = {"op": "Core.removeAssembly", "cell": list(p), "discharge": discharge}
         self.history.append(desc)
         to_sfp = discharge and self.track and self.sfp is not None
+        if not to_sfp:
+            self.pending = ({id(a)}, {id(b) for b in self.seq[id(a)]})
         try:
-            self.core.removeAssembly(a, discharge=discharge)
+            try:
+                self.core.removeAssembly(a, discharge=discharge)
+            finally:
+                self.pending = (set(), set())
         except Exception as e:
             where = "Core.removeAssembly"
             if to_sfp and not self.sfp_usable and "_updateNumberOfColumns" in _tb(e):
